@@ -96,6 +96,12 @@ def iparse_number_array(arr):
     return iparse_number_array_aux(arr)
 
 
+def wildcard_match(text, pattern):
+    """ Excel wildcards: * is any run of characters, ? any single one, all else literal """
+    regex = ''.join('.*' if c == '*' else '.' if c == '?' else re.escape(c) for c in pattern)
+    return re.match('(?s)' + regex + r'\Z', text) is not None
+
+
 def parse_criteria(criteria):
     match = REGEX_CRITERIA.match(criteria)
     op = match.group('op')
